@@ -179,6 +179,27 @@ PROPS["C15"] = {
     "expect_probes": ["registry.handler_runs", "signal.deferred_by_mask", "os.mremap_inplace", "os.mremap_failed", "signal_delivered"],
 }
 
+PROPS["C18"] = {
+    "level": "exploration",
+    "scenarios": {"rculist": {"quick": 250000, "thorough": 8000000, "thorough_time": 900}},
+    "rule": "one evaluation = one seeded simulated execution: 1-2 updaters (mutually excluded by a simulated mutex) apply cds_list_add_rcu/add_tail_rcu/del_rcu/replace_rcu or cds_hlist add_head/del to fully initialised nodes and free removed nodes a grace period later "
+            "(call_rcu or synchronize_rcu()+free into the quarantine), while 1-3 readers traverse inside read-side sections; preemption is possible at every individual pointer store of the updater (plain stores are instrumented) and stores may be TSO-delayed. "
+            "Oracles: traversal terminates; no node twice; every node whose add (incl. lock release) returned before the traversal began and whose removal started after it ended is visited, in list order; visited nodes were in the list at some instant; payload intact; quarantine use-after-free. "
+            "Non-trivial = every run (updates and traversals overlap by construction); distinct = distinct event-log fingerprints.",
+    "assumptions": COMMON_ASSUME + ["an update counts as completed for the oracle once the updater has released its lock (a full barrier): a store may sit in the x86 store buffer after the list primitive itself returns"],
+    "expect_probes": ["os.futex_wait_blocked"],
+}
+PROPS["C19"] = {
+    "level": "exploration",
+    "scenarios": {"signals": {"quick": 200000, "thorough": 6000000, "thorough_time": 900}},
+    "rule": "one evaluation = one seeded simulated execution on memb, mb or bp: 1-4 threads run read sections (nesting 1-3), synchronize_rcu(), call_rcu() and updates while up to 3 signals per thread are delivered at seed-chosen memory accesses of the victim "
+            "(any instrumented access, atomic, fence or system call in library or application code: inside rcu_read_lock/unlock, synchronize_rcu(), call_rcu(), bp auto-registration subject to the simulated mask), nested up to depth 2. "
+            "The handler records rcu_read_ongoing(), runs a read-side section dereferencing the shared object, and compares. Oracles: state restored; handler sections and interrupted sections both take part in the C01 interval and reclamation oracles; deadlock detector. "
+            "memb/mb: signals are blocked before rcu_unregister_thread() (README contract); qsbr excluded. Non-trivial = a grace period overlapped a section; distinct = distinct event-log fingerprints.",
+    "assumptions": COMMON_ASSUME + ["the simulated handler preserves errno, as POSIX requires of handlers"],
+    "expect_probes": ["signals.handler", "signals.nested_handler", "signal.deferred_by_mask"],
+}
+
 NOT_APPLICABLE = {}
 
 _SIM_NOTE = ("Trusted base: the usim runtime (scheduler, TSO model, simulated OS, tracked arena), gcc's access instrumentation, "
@@ -232,5 +253,11 @@ MANIFEST_TEXT = {
             "technique": "deterministic simulation (library worker threads interleaved by the seeded scheduler) driving a seeded model-based comparison with a reference multimap"},
     "C15": {"design_ref": "3.15",
             "level_text": "Seeded exploration of (un)registration churn against running grace periods on every flavor, bp registry growth with simulated mremap outcomes, slot reuse and signal delivery around automatic registration and thread exit.",
+            "level_note": _SIM_NOTE},
+    "C18": {"design_ref": "3.18",
+            "level_text": "Seeded exploration of the updater's individual pointer stores against the reader's loads under SC and TSO; traversal termination/order/presence oracles plus quarantine.",
+            "level_note": _SIM_NOTE},
+    "C19": {"design_ref": "3.19",
+            "level_text": "Seeded exploration of signal arrival at any access of the interrupted thread with nested handlers; state-restored oracle plus the C01 oracles over handler and interrupted sections.",
             "level_note": _SIM_NOTE},
 }
